@@ -58,17 +58,6 @@ func c08Setup(n int) *c08World {
 	w.enc, err = w.snd.GetShareableChainKey(ctx, g, rcvMD.Member())
 	verif_assume(err == nil)
 
-	w.log = verif_newLog()
-	for i := 0; i < n; i++ {
-		p := verif_anyBytesNonNil("payload")
-		w.plain = append(w.plain, p)
-		pay, err := proto.Marshal(&protocoltypes.EncryptedMessage{Plaintext: p})
-		verif_assume(err == nil)
-		env, err := w.snd.SealEnvelope(ctx, g, pay)
-		verif_assume(err == nil)
-		w.entries = append(w.entries, verif_logAppend(w.log, env))
-	}
-
 	gpk, err := g.GetPubKey()
 	verif_assume(err == nil)
 	rcvRaw, err := rcvMD.Device().Raw()
@@ -88,6 +77,18 @@ func c08Setup(n int) *c08World {
 	m.emitters.groupCacheMessage = verif_emitter("groupCacheMessage")
 	m.ctx, m.cancel = ctx, cancel
 	w.store = m
+
+	// the entries are in the store's own log (what ListEvents reads); their arrival is driven by the harnesses
+	w.log = verif_storeLog(&m.BaseStore)
+	for i := 0; i < n; i++ {
+		p := verif_anyBytesNonNil("payload")
+		w.plain = append(w.plain, p)
+		pay, err := proto.Marshal(&protocoltypes.EncryptedMessage{Plaintext: p})
+		verif_assume(err == nil)
+		env, err := w.snd.SealEnvelope(ctx, g, pay)
+		verif_assume(err == nil)
+		w.entries = append(w.entries, verif_logAppend(w.log, env))
+	}
 	return w
 }
 
